@@ -51,7 +51,9 @@ Render(tpl, lit, re) ==
 AllSites == {"print", "printlist", "assign", "addassign", "concatl", "concatr", "eqdoc", "neqdoc", "not", "cond", "whilecond",
              "arg", "ret", "elem", "objval", "recv", "recvsplit", "methodarg", "printfarg", "printffmt", "forin",
              "subset", "subget", "subgetdoc", "subsetget", "subnested", "subincr", "subaddassign", "subdocassign", "subdelete",
-             "matchsubj", "matchpat", "matcharr", "matchres", "tildesubj", "grouped", "andor"}
+             "matchsubj", "matchpat", "matcharr", "matchres", "tildesubj", "grouped", "andor",
+             \* a string literal as the KEY of an object literal is a string literal like any other
+             "objkey", "objkeyget", "objkeyin", "objkeytwo"}
 \* the sites that read the input document
 DocSites == {"eqdoc", "neqdoc", "subgetdoc", "subdocassign", "matchpat", "matcharr"}
 
@@ -71,6 +73,10 @@ Tpl(site) ==
     [] site = "ret" -> <<T("function f() { return "), L, T(" } BEGIN { print f() }")>>
     [] site = "elem" -> <<T("BEGIN { a = [1, "), L, T("]; print a[1] }")>>
     [] site = "objval" -> <<T("BEGIN { o = {k: "), L, T("}; print o.k }")>>
+    [] site = "objkey" -> <<T("BEGIN { o = {"), L, T(": 1}; for (k in o) print k }")>>
+    [] site = "objkeyget" -> <<T("BEGIN { o = {"), L, T(": 7}; print o["), L, T("] }")>>
+    [] site = "objkeyin" -> <<T("BEGIN { o = {a: {"), L, T(": 3}}; for (k, v in o.a) print k + \"|\" + v }")>>
+    [] site = "objkeytwo" -> <<T("BEGIN { o = {"), L, T(": 1, "), L, T(": 2}; n = 0; for (k, v in o) { n++; print k + \"|\" + v } print n }")>>
     [] site = "recv" -> <<T("BEGIN { print "), L, T(".length() }")>>
     [] site = "recvsplit" -> <<T("BEGIN { print "), L, T(".split(\"|\")[0] }")>>
     [] site = "methodarg" -> <<T("BEGIN { x = "), L, T("; print (\"p\" + x + \"q\").split("), L, T(").length() }")>>
@@ -100,6 +106,10 @@ Lines(val) == FlattenSeq([i \in 1..Len(val) |-> <<val[i], NL>>])
 \* what the program prints when the literal denotes val
 Out(site, val) ==
   CASE site \in {"print", "assign", "addassign", "arg", "ret", "elem", "objval", "subset", "matchres", "grouped", "recvsplit"} -> val \o <<NL>>
+    [] site = "objkey" -> val \o <<NL>>
+    [] site = "objkeyget" -> <<"7", NL>>
+    [] site = "objkeyin" -> val \o <<"|", "3", NL>>
+    [] site = "objkeytwo" -> val \o <<"|", "2", NL, "1", NL>>   \* the same key written twice is one member holding the later value
     [] site = "printlist" -> Chars("1 ") \o val \o Chars(" 2") \o <<NL>>
     [] site = "concatl" -> val \o <<"|", NL>>
     [] site = "concatr" -> <<"|">> \o val \o <<NL>>
@@ -126,7 +136,8 @@ Out(site, val) ==
 
 \* does the site's output determine the value byte for byte (the other sites confront it with an independent copy)?
 Reveals(site) == site \in {"print", "printlist", "assign", "addassign", "concatl", "concatr", "arg", "ret", "elem", "objval", "recvsplit",
-                           "printfarg", "printffmt", "forin", "subset", "subnested", "subincr", "subaddassign", "matchres", "grouped"}
+                           "printfarg", "printffmt", "forin", "subset", "subnested", "subincr", "subaddassign", "matchres", "grouped",
+                           "objkey", "objkeyin", "objkeytwo"}
 
 VARIABLES site, al, body, q, done
 Init == /\ al \in {1, 2} /\ site \in SitesOf(al) /\ body \in SeqsUpTo(Alphabet(al), Min2(Bound(al))) \cup Probes(al) /\ q = "'" /\ done = FALSE
